@@ -36,7 +36,8 @@ def typeIdent (q : Qualifier) (schemaName name : Text) : List Text := prefixOf q
 inductive ScopeCh
   | addSchema | dropSchema
   | modifySchema (name : Text)
-  | table (schemaName : Text)      -- AddTable / ModifyTable / DropTable of a table in this schema
+  | table (schemaName : Text)      -- AddTable / ModifyTable / DropTable / RenameTable of a table in this schema
+  | object (schemaName : Text)     -- AddObject / DropObject / ModifyObject of an enum type of this schema
   | other
 deriving DecidableEq, Repr, Inhabited
 
@@ -53,6 +54,7 @@ def scopeGo (scope : Text) (inPlace : Bool) : List ScopeCh → List Text → Opt
       else if !scope.isEmpty && scope != n then none
       else scopeGo scope inPlace rest (names ++ [n])
     | .table s => scopeGo scope inPlace rest (if s.isEmpty then names else names ++ [s])
+    | .object _ => scopeGo scope inPlace rest names   -- the `default: continue` arm: the object's schema is not looked at
     | .other => scopeGo scope inPlace rest names
 
 /-- `CheckChangesScope(opts, changes)`: `true` = accepted. -/
